@@ -41,5 +41,5 @@ Lemma prefix_subscribe_panics :
 Proof. vm_compute. reflexivity. Qed.
 
 Lemma fixed_subscribe_rejects :
-  mochi_decode_body 5 (mkfh 6 SUBSCRIBE 1 false false) c27_witness = Err EQos.
+  mochi_decode_body 5 (mkfh 6 SUBSCRIBE 1 false false) c27_witness = Err EOffsetByteOutOfRange.
 Proof. vm_compute. reflexivity. Qed.
